@@ -208,12 +208,43 @@ class Fold(ast.NodeTransformer):
 
     def visit_Subscript(self, n):
         self.generic_visit(n)
+        # TABLE["key"] with TABLE a module / class level dict display of constants, closed lambdas or accessors
+        if self.repo is not None and isinstance(n.ctx, ast.Load) and isinstance(n.slice, ast.Constant) and isinstance(n.value, (ast.Name, ast.Attribute)):
+            d = _const_dict(self.repo, self.f, n.value)
+            if d is not None:
+                for k, v in zip(d.keys, d.values):
+                    if isinstance(k, ast.Constant) and k.value == n.slice.value:
+                        self.changed = True
+                        return copy.deepcopy(v)
         # (a, b, c)[1] with a constant index
         if isinstance(n.value, ast.Tuple) and isinstance(n.slice, ast.Constant) and isinstance(n.slice.value, int) and isinstance(n.ctx, ast.Load) \
                 and -len(n.value.elts) <= n.slice.value < len(n.value.elts) and not any(isinstance(x, ast.Starred) for x in n.value.elts):
             self.changed = True
             return n.value.elts[n.slice.value]
         return n
+
+
+def _const_dict(repo, f, e):
+    """the module / class level dict display (constant keys, constant-like values) an expression names, or None"""
+    v = None
+    if isinstance(e, ast.Name):
+        v = repo.const_value(f.mod, e.id)
+    elif isinstance(e, ast.Attribute) and isinstance(e.value, ast.Name):
+        base = e.value.id
+        cq = f"{f.mod}.{f.cls}" if base in ("self", "cls") and f.cls else (repo.chase(f.mod, base) if repo.chase(f.mod, base) in repo.classes else None)
+        if cq:
+            for k in repo.mro(cq):
+                cn = repo.classes.get(k)
+                if cn is None:
+                    continue
+                for st in cn.body:
+                    if isinstance(st, ast.Assign) and len(st.targets) == 1 and isinstance(st.targets[0], ast.Name) and st.targets[0].id == e.attr:
+                        v = st.value
+                if v is not None:
+                    break
+    if isinstance(v, ast.Dict) and v.keys and None not in v.keys and all(isinstance(k, ast.Constant) for k in v.keys) and all(_const(x) for x in v.values):
+        return v
+    return None
 
 
 def fold_if_statements(stmts):
@@ -271,6 +302,65 @@ def propagate_constant_locals(fnode):
         def visit_Name(self, n):
             if n.id in use and isinstance(n.ctx, ast.Load):
                 return ast.copy_location(ast.Constant(value=use[n.id].value.value), n)
+            return n
+    P().visit(fnode)
+
+    def strip(stmts):
+        out = []
+        for st in stmts:
+            if any(st is v for v in use.values()):
+                continue
+            for fld in ("body", "orelse", "finalbody"):
+                sub = getattr(st, fld, None)
+                if isinstance(sub, list) and sub and isinstance(sub[0], ast.stmt) and not isinstance(st, (ast.FunctionDef, ast.ClassDef)):
+                    new = strip(sub)
+                    setattr(st, fld, new or ([ast.Pass()] if fld == "body" else []))
+            out.append(st)
+        return out
+    fnode.body = strip(fnode.body)
+    return True
+
+
+def propagate_callable_locals(fnode):
+    """m = obj.method (bound once, obj a cheap path or a call result read once) and every use is a call m(...)  ->  obj.method(...)"""
+    counts = {}
+    defs = {}
+    for n in walk_own(fnode):
+        if isinstance(n, ast.Assign):
+            for t in n.targets:
+                for x in ast.walk(t):
+                    if isinstance(x, ast.Name) and isinstance(x.ctx, ast.Store):
+                        counts[x.id] = counts.get(x.id, 0) + 1
+            if len(n.targets) == 1 and isinstance(n.targets[0], ast.Name) and isinstance(n.value, ast.Attribute):
+                defs[n.targets[0].id] = n
+        elif isinstance(n, (ast.AugAssign, ast.For, ast.AnnAssign)):
+            for x in ast.walk(n.target):
+                if isinstance(x, ast.Name):
+                    counts[x.id] = counts.get(x.id, 0) + 1
+    par = {}
+    for n in ast.walk(fnode):
+        for c in ast.iter_child_nodes(n):
+            par[c] = n
+    use = {}
+    for nm, d in defs.items():
+        if counts.get(nm) != 1:
+            continue
+        loads = [x for x in walk_own(fnode) if isinstance(x, ast.Name) and x.id == nm and isinstance(x.ctx, ast.Load)]
+        if loads and all(isinstance(par.get(x), ast.Call) and par[x].func is x for x in loads) and (len(loads) == 1 or _cheap(d.value)):
+            use[nm] = d
+    if not use:
+        return False
+
+    class P(ast.NodeTransformer):
+        def visit_FunctionDef(self, n):
+            if n is fnode:
+                self.generic_visit(n)
+            return n
+
+        def visit_Call(self, n):
+            self.generic_visit(n)
+            if isinstance(n.func, ast.Name) and n.func.id in use:
+                n.func = copy.deepcopy(use[n.func.id].value)
             return n
     P().visit(fnode)
 
@@ -1257,6 +1347,8 @@ def has_constant_structure(repo, f):
             return True
         if isinstance(n, ast.Call) and isinstance(n.func, (ast.Lambda,)):
             return True
+        if isinstance(n, ast.Subscript) and isinstance(n.slice, ast.Constant) and isinstance(n.value, (ast.Name, ast.Attribute)) and _const_dict(repo, f, n.value) is not None:
+            return True
         if isinstance(n, ast.Call) and U(n.func) in ("functools.reduce", "reduce", "slice"):
             return True
         if isinstance(n, ast.Call) and isinstance(n.func, ast.Attribute) and n.func.attr == "update" and isinstance(n.func.value, ast.Attribute) and n.func.value.attr == "__dict__":
@@ -1292,6 +1384,9 @@ def partial_evaluate(repo, max_rounds=8):
             if propagate_constant_locals(f.node):
                 ch = True
                 steps.append("constants")
+            if steps and propagate_callable_locals(f.node):
+                ch = True
+                steps.append("callables")
             if propagate_slice_locals(f.node):
                 ch = True
                 steps.append("slices")
